@@ -21,6 +21,8 @@ type chooser struct {
 	timed  bool // windows of a few ticks and T steps
 	wild   int  // 0 = always possible steps; n>0: one step in n is not checked for possibility
 	bad    bool // loads that fail in Provision may occur
+	areal  bool // a configuration whose active checks the schedule drives was loaded
+	bg     bool // a configuration with free-running background checks was loaded
 	dyn    bool // a configuration with a dynamic source was loaded
 	lat    bool // a configuration with unhealthy_latency was loaded: no clock steps from now on
 	slow   int  // slow answers used (they cost real time)
@@ -99,7 +101,19 @@ func (c *chooser) loadStep(K int) string {
 		c.lat = true
 		return text + fmt.Sprintf(":%d:1", r.Intn(3)) // unhealthy_latency configured
 	}
-	if r.Chance(1, 12) {
+	if !c.bg && r.Chance(1, 5) {
+		// active health checks the schedule drives (H / K steps): distinct addresses
+		n := 1 + r.Intn(K)
+		start := r.Intn(K)
+		var ks []int
+		for i := 0; i < n; i++ {
+			ks = append(ks, (start+i)%K)
+		}
+		c.areal = true
+		return fmt.Sprintf("L:%s:%d:%d:%d:%d:%d:%d:0:%d", keysText(ks), p, d, m, rt, q, s, 4+r.Intn(4))
+	}
+	if !c.areal && r.Chance(1, 12) {
+		c.bg = true
 		return text + fmt.Sprintf(":%d:2", r.Intn(3)) // active health checks run in the background
 	}
 	if r.Chance(1, 8) {
@@ -180,6 +194,17 @@ func (c *chooser) next(k *kase) (step, bool) {
 					text = fmt.Sprintf("D:%d", key)
 				} else {
 					text = fmt.Sprintf("U:%d", key)
+				}
+			case x < 78 && c.areal && live && k.cur.st.areal:
+				if r.Chance(1, 2) {
+					text = "K"
+				} else {
+					key := r.Intn(k.K)
+					if k.backends[key].hbad.Load() {
+						text = fmt.Sprintf("H:%d:1", key)
+					} else {
+						text = fmt.Sprintf("H:%d:0", key)
+					}
 				}
 			case x < 74 && c.dyn:
 				if k.srcFails.Load() {
